@@ -496,7 +496,7 @@ func contPhases(tier string) []PhaseCfg {
 			{Name: "seeded", Count: 10_000_000}, pairPhase(4_000, 400_000, tier), {Name: "multi-container", Count: 10_000_000, P: map[string]int{"multi": 1}}}
 	}
 	return []PhaseCfg{{Name: "structural-sweep", Radix: radix, Count: product(radix), P: map[string]int{"seeded_tail": 1}},
-		{Name: "seeded", Count: 40_000}, pairPhase(4_000, 300_000, tier), {Name: "multi-container", Count: 40_000, P: map[string]int{"multi": 1}}}
+		{Name: "seeded", Count: 40_000}, pairPhase(12_000, 300_000, tier), {Name: "multi-container", Count: 40_000, P: map[string]int{"multi": 1}}}
 }
 
 func (c06Prop) Phases(tier string) []PhaseCfg { return contPhases(tier) }
